@@ -4,6 +4,7 @@ import OjgVerif.JPText.PrecTriplesA
 import OjgVerif.JPText.PrecTriplesB
 import OjgVerif.JPText.PrecTriplesC
 import OjgVerif.JPText.LemmasExpr
+import OjgVerif.JPText.PrecFilterExpr
 /-! # C14 — JSONPath and script text forms round-trip
 
 Model: `JPText/Print.lean` (the printers), `JPText/Parse.lean` (jp/parse.go), over the regenerated
@@ -153,6 +154,13 @@ theorem prec_pairs_exact :
 theorem prec_triples_exact :
     ((triplesATrees ++ triplesBTrees ++ triplesCTrees).all fun s => devsExact s.eqn) = true := by
   rw [List.all_append, List.all_append, triplesA_exact, triplesB_exact, triplesC_exact]; rfl
+
+/-- expressions that CARRY a filter: `$.list[?(e)].x` for every equation tree `e` with one or two operator
+nodes over `Not` and all 19 binary constructors, leaves alternating between a path `@.a` and an integer:
+`String()` and `BracketString()` are read back (nested `readExpr` inside `readEq` inside `readExpr`) to the same
+expression and printed identically EXACTLY when `devsExpr` names no deviation for that text form -/
+theorem filter_expr_pairs_exact : (filterExprTrees.all fun s => devsExactExpr s.filterExpr) = true :=
+  filterExpr_exact
 
 /-- the partial form over the small trees: no named deviation ⇒ all three forms round-trip -/
 theorem prec_small_partial (s : Shape)
